@@ -13,6 +13,7 @@ BINDINGS = [
     ({"a": 3, "b": 1, "u": 4}, {"K": 6}),
     ({"a": 0, "b": 2, "u": 9}, {"K": 5}),
     ({"a": 5, "b": 1, "u": 2, "K": 1}, {"K": 6}),   # the context shadows the constant
+    ({"a": 2, "b": 0, "u": 1, "K": 0}, {"K": 6, "b": 7, "a": 9}),   # ... also with the value 0
 ]
 SIZEOF = {"unsigned short": 2, "unsigned int": 4, "unsigned long long": 8, "signed char": 1, "long long": 8, "uint32": 4, "uint8": 1, "uint16": 2, "uint64": 8, "int24": 3, "char": 1, "wchar": 2, "int128": 16}
 
